@@ -62,6 +62,9 @@ func next(name, kind string) replayVal {
 		fmt.Printf("REPLAY-DIVERGED want %s %q but vector exhausted at %d\n", kind, name, pos)
 		os.Exit(4)
 	}
+	for rf.Nondet[pos].Kind == "uf" && pos+1 < len(rf.Nondet) {
+		pos++ // points of an uninterpreted function (UFLookup): not part of the input sequence
+	}
 	v := rf.Nondet[pos]
 	pos++
 	if v.Kind != kind || (v.Name != name && kind != "choose") {
@@ -270,6 +273,35 @@ func WatchChangedTag(tag string) int  { return 0 }
 // the Go race detector is the counterpart: go test -race).
 func RaceBegin()     {}
 func RaceCount() int { return 0 }
+
+// UFLookup: the points of the uninterpreted function `name` that the solver's counterexample fixed (replay only).
+// The compiled library model consults it before falling back to its own fixed function, so that a violation
+// that depends on the value of E(x) reproduces natively. Under the engine it is nil (the model is intercepted).
+func UFLookup(name string) func(string) (string, bool) {
+	return func(in string) (string, bool) {
+		load()
+		for _, v := range rf.Nondet {
+			if v.Kind != "uf" || v.Name != name || len(v.Bytes) != 2*len(in) {
+				continue
+			}
+			match := true
+			for k := 0; k < len(in); k++ {
+				if byte(v.Bytes[k]) != in[k] {
+					match = false
+					break
+				}
+			}
+			if match {
+				out := make([]byte, len(in))
+				for k := range out {
+					out[k] = byte(v.Bytes[len(in)+k])
+				}
+				return string(out), true
+			}
+		}
+		return "", false
+	}
+}
 
 // NativeCheck runs f in the compiled harness (replay); under the engine it is true without running f.
 func NativeCheck(f func() bool) bool { return f() }
